@@ -1,5 +1,6 @@
 """Decision tables (spec/ICTables.tla): misuse (C19), configuration (C15), constructor shapes (C14)."""
 import functools
+import inspect
 import json
 import os
 import shutil
@@ -280,6 +281,163 @@ def check_ctor(res: CheckResult, ic: Any) -> None:
     res.traces += n
     res.evaluations += n
     res.add_unit("constructor shapes of a class with invariants and its subclass x arguments", cells=n)
+
+
+# ------------------------------------------------------------------------------------------------------ C14 metadata
+def _meta_pair(ic: Any, how: str, kind: str) -> Tuple[Any, Any, Any, Any]:
+    """(bare callable, contracted callable, bare class or None, contracted class or None) for a cell."""
+    import abc
+    import functools
+    isasync = kind in ("async_function", "async_method", "abstract_async_method")
+    isabstract = kind in ("abstract_method", "abstract_async_method")
+    inclass = kind not in ("function", "async_function")
+
+    def make_fn() -> Any:
+        if isasync:
+            async def target(self_or_x: int = 1, y: "str" = "a") -> int:
+                """the doc"""
+                return 1
+        else:
+            def target(self_or_x: int = 1, y: "str" = "a") -> int:  # type: ignore
+                """the doc"""
+                return 1
+        return target
+
+    def to_async(f: Any) -> Any:
+        @functools.wraps(f)
+        async def wrapper(*a: Any, **k: Any) -> Any:
+            return f(*a, **k)
+        return wrapper
+
+    def to_sync(f: Any) -> Any:
+        @functools.wraps(f)
+        def wrapper(*a: Any, **k: Any) -> Any:
+            return f(*a, **k)
+        return wrapper
+
+    def contract(f: Any) -> Any:
+        if how == "require":
+            return ic.require(lambda: True)(f)
+        if how == "ensure":
+            return ic.ensure(lambda result: True)(f)
+        if how == "snapshot_ensure":
+            return ic.snapshot(lambda y: y, name="s")(ic.ensure(lambda result: True)(f))
+        if how == "require_ensure":
+            return ic.require(lambda: True)(ic.ensure(lambda result: True)(f))
+        return f
+
+    def wrap_kind(f: Any) -> Any:
+        if isabstract:
+            f = abc.abstractmethod(f)
+        if kind == "static":
+            return staticmethod(f)
+        if kind == "classm":
+            return classmethod(f)
+        if kind == "getter":
+            return property(f)
+        return f
+
+    def unwrap_kind(raw: Any) -> Any:
+        if isinstance(raw, (staticmethod, classmethod)):
+            return raw.__func__
+        if isinstance(raw, property):
+            return raw.fget
+        return raw
+
+    if how == "foreign_makes_async":
+        base = to_async(make_fn())
+    elif how == "foreign_makes_sync":
+        async def inner(self_or_x: int = 1, y: "str" = "a") -> int:
+            """the doc"""
+            return 1
+        base = to_sync(inner)
+    else:
+        base = make_fn()
+    if not inclass:
+        deco = ic.require(lambda: True) if how.startswith("foreign") else None
+        return base, (deco(base) if deco else contract(base)), None, None
+    # in a class: the bare class holds the undecorated member, the contracted class the contracted one
+    bases = (abc.ABC,) if isabstract else (object,)
+    if how == "dbc_invariant":
+        cbases = (ic.DBC,)
+    else:
+        cbases = bases
+    member_bare = wrap_kind(base)
+    if how in ("invariant", "dbc_invariant"):
+        member_con = wrap_kind(base)
+    elif how.startswith("foreign"):
+        member_con = wrap_kind(ic.require(lambda: True)(base))
+    else:
+        member_con = wrap_kind(contract(base))
+    Bare = type(bases[0])("K", bases, {"t": member_bare, "__module__": "icv_meta"})
+    Con = type(cbases[0])("K", cbases, {"t": member_con, "__module__": "icv_meta"})
+    if how in ("invariant", "dbc_invariant"):
+        Con = ic.invariant(lambda self: True)(Con)
+    return (unwrap_kind(inspect.getattr_static(Bare, "t")), unwrap_kind(inspect.getattr_static(Con, "t")), Bare, Con)
+
+
+def _meta_attr(attr: str, fn: Any, cls: Any, original: Any) -> Any:
+    if attr == "name":
+        return getattr(fn, "__name__", None)
+    if attr == "qualname":
+        return getattr(fn, "__qualname__", None)
+    if attr == "doc":
+        return getattr(fn, "__doc__", None)
+    if attr == "module":
+        return getattr(fn, "__module__", None)
+    if attr == "annotations":
+        return dict(getattr(fn, "__annotations__", {}))
+    if attr == "signature":
+        return str(inspect.signature(fn))
+    if attr == "abstract":
+        return bool(getattr(fn, "__isabstractmethod__", False))
+    if attr == "class_abstract":
+        sub = type(cls)("Sub", (cls,), {})
+        try:
+            sub()
+            inst = True
+        except TypeError:
+            inst = False
+        return (inspect.isabstract(cls), sorted(getattr(cls, "__abstractmethods__", ())), inst)
+    if attr == "coroutine":
+        return inspect.iscoroutinefunction(fn)
+    if attr == "wrapped":
+        cur, seen = fn, 0
+        while cur is not None and seen < 30:
+            if cur is original:
+                return True
+            cur, seen = getattr(cur, "__wrapped__", None), seen + 1
+        return False
+    raise ValueError(attr)
+
+
+def check_meta(res: CheckResult, ic: Any) -> None:
+    """C14: name, qualname, doc, module, annotations, signature, abstractness, coroutine-ness, __wrapped__."""
+    r, cells = table_cells("meta")
+    if not r.ok:
+        raise MachineryError("ICTables/meta: {}".format(r.violated or r.error))
+    res.states += r.distinct
+    res.transitions += r.states
+    n = 0
+    for ex in cells:
+        cell = ex["cell"]
+        try:
+            bare, con, bare_cls, con_cls = _meta_pair(ic, cell["how"], cell["kind"])
+            want = _meta_attr(cell["attr"], bare, bare_cls, bare)
+            got = _meta_attr(cell["attr"], con, con_cls, bare)
+        except Exception as exc:  # noqa
+            res.violation("def.metadata_lost", "metadata cell {}: {!r}".format(cell, exc),
+                          {"signature": "def.metadata_lost", "cell": cell})
+            continue
+        n += 1
+        if want != got:
+            res.violation("def.metadata_lost",
+                          "{} of a {} contracted by {}: the decorated object shows {!r}, the contracted one {!r}".format(
+                              cell["attr"], cell["kind"], cell["how"], want, got),
+                          {"signature": "def.metadata_lost", "cell": cell, "bare": repr(want), "contracted": repr(got)})
+    res.traces += n
+    res.evaluations += n
+    res.add_unit("metadata: attribute x callable kind x way of contracting", cells=n)
 
 
 # ------------------------------------------------------------------------------------------------------ C15
